@@ -856,6 +856,14 @@ pub fn gen_dec(rng: &mut Rng, thorough: bool, out: &mut String) {
             signer_kind,
         ));
     }
+    // keys that are not well-formed UTF-8 (their lossy text images coincide or change order)
+    for kind in [Kind::Secp, Kind::Ed] {
+        for ks in [[vec![0x80u8], vec![0x81u8]], [vec![0x9c, 0x01], vec![0xc3, 0xa9]], [vec![0xc3, 0xa9], vec![0xff]], [vec![0xc0], vec![0xc1]]] {
+            let pairs = vec![(ks[0].clone(), vec![0x01u8]), (ks[1].clone(), vec![0x02u8])];
+            let spec = Spec::new(1, pairs, IndKey::gen(rng, kind));
+            inputs.push(inp("v-non-utf8-keys", "accept", spec.encode(false), kind));
+        }
+    }
     // secp256k1 signatures with a chosen nonce (k = 1/2): r starts with eleven zero bytes
     for r in 0..(if thorough { 12 } else { 4 }) {
         let m = rng.below(64);
